@@ -1,5 +1,6 @@
 import P9Model.Props.C04
 import P9Model.Session.Isolation
+import P9Model.Lemmas.Lock.PanicSafe
 /-!
 # C15 — Fault containment: backend errors and panics affect only their request
 
@@ -81,5 +82,11 @@ theorem decRef_never_panics (fuel r : Nat) (c : Ctx) : ∃ a c', decRef fuel r c
 example : (handle
     { fids := [((0, 0), 0)], refs := [{ file := 1, mode := 0o040000, refs := 1, node := 0 }] } 0 110
     { vals := [.atom (.int 0), .atom (.int 1), .list [[.str [0x61]]]] } [.panic]).reply = rerr EFAULT := by decide
+
+/-- O (**a panic leaves no lock behind**, regenerated from the lock scripts): every lock held
+while a backend call runs is released by a `defer` placed right after its acquisition – so the
+panic that `handle` recovers from unwinds through every critical section it was in, and later
+requests on the same paths, fids and connections are not blocked by it. -/
+theorem locks_released_when_a_backend_call_panics : Locks.panicSafeOk = true := Locks.panic_safe_fact
 
 end P9.C15
